@@ -1446,6 +1446,54 @@ func runRestartDuringTeardown(c *kit.Ctx) {
 // crossplane.io/paused annotation, so its own controller does not finalize it. The teardown has
 // to wait for it like for any other instance: controller stop and CRD deletion only after every
 // instance is gone. Later the user un-pauses it and the teardown completes.
+// runEstablishInterleave is part L: a brand-new XRD is picked up by the defined and the offered
+// controller at the same time. One of them is parked before each of its first API calls (its read
+// of the XRD is then older than the other's writes) while the other reconciles to completion.
+// Then the XRD is deleted at once. Each controller's finalizer is its own: it goes only after the
+// CRD it stands for.
+func runEstablishInterleave(c *kit.Ctx) {
+	for _, ssa := range []bool{false, true} {
+		for _, victim := range []string{"definition", "offered"} {
+			for k := 0; k <= 8; k++ {
+				name := fmt.Sprintf("establish-interleave/ssa=%v/%s-parked-before-call-%d", ssa, victim, k)
+				if !c.Want(name) {
+					continue
+				}
+				e := newEnv(uint64(c.Seed)*241+uint64(k), ssa)
+				w := e.w
+				m := newMonitor()
+				w.AddHook(m.hook)
+				from := w.LogLen()
+				other := map[string]string{"definition": "offered", "offered": "definition"}[victim]
+				recs := map[string]func(){
+					"definition": func() { _, _ = e.defR.Reconcile(ctx, xrdReq) },
+					"offered":    func() { _, _ = e.offR.Reconcile(ctx, xrdReq) },
+				}
+				s := w.NewScheduler()
+				s.Go(victim, func() { recs[victim](); recs[victim]() })
+				s.Go(other, func() { recs[other](); xrk.EstablishCRDs(w); recs[other]() })
+				plan := []sim.Segment{{Actor: victim, Steps: k}, {Actor: other, Steps: -1}, {Actor: victim, Steps: -1}}
+				_ = s.Run(sim.PlanChooser(plan), 5000)
+				w.SetScheduler(nil)
+				xrk.EstablishCRDs(w)
+				m.running[ctlComposite] = e.defEng.IsRunning(ctlComposite)
+				m.running[ctlClaim] = e.offEng.IsRunning(ctlClaim)
+				// deleted before either controller gets another turn
+				if x := w.GetObj(xrdKey); x != nil {
+					_ = w.Client("user").Delete(ctx, &unstructured.Unstructured{Object: x})
+				}
+				e.settle(6)
+				c.Eval(name, true)
+				c.Count("establish_interleave_cases", 1)
+				c.Count("monitor_evaluations", int64(m.checks))
+				for i, key := range m.keys {
+					c.Violate(key+":establish-interleave", name, m.whats[i], map[string]any{"ssa": ssa, "parked": victim, "before_call": k, "order": m.order, "trace": shortTrace(w, from, 60)})
+				}
+			}
+		}
+	}
+}
+
 // runEstablishedXRD is part K: the XRD belongs to a Configuration package; its active revision
 // establishes it again (as it does on every reconcile) with the REAL establisher - once while the
 // XRD lives, once after the user deleted it and it waits, Terminating, for its instances. Whoever
@@ -1601,6 +1649,7 @@ func main() {
 	c.Rule += " " + "Lock entries in the forms older versions wrote (type only, apiVersion+kind, Function as v1beta1)."
 	c.Rule += " " + "(1b) the deleted revision's controller reads the Lock through a cache that is behind another writer for 1-3 reconciles."
 	c.Rule += " " + "Part G: referenceable version bump, then claim deletion. Part H: Crossplane restarts during an XRD teardown held up by a third-party finalizer."
+	c.Rule += " " + "Part L: a new XRD picked up by both XRD controllers at once, one parked before each of its first calls while the other completes, then deleted at once."
 	c.Rule += " " + "Part K: the XRD is established again by its package's active revision (real establisher) while it lives and while it waits, Terminating, for its instances; its finalizers go only after its CRDs."
 	c.Rule += " " + "Part J: one or two claim reconciles behind an XR cache that has not seen the claim's XR, then deletion - every XR bound to the claim (not only the referenced one) precedes the finalizer. Revision-lock worlds in which another locked package depends on the deleted revision's package."
 	c.Assumptions = []string{"a stopped controller reconciles nothing; a running one reconciles every instance when scheduled", "part C: fake informers stand in for client-go shared informers (handler registrations, RemoveEventHandler errors); part D: the Usage is composed by label only, no XR reconciler runs"}
@@ -1633,6 +1682,9 @@ func main() {
 	}
 	if err := kit.Try(func() { runClaimDeletionFaults(c) }); err != nil {
 		c.Violate("panic:claim-deletion-faults", "claim-deletion-fault", err.Error(), nil)
+	}
+	if err := kit.Try(func() { runEstablishInterleave(c) }); err != nil {
+		c.Violate("panic:establish-interleave", "establish-interleave", err.Error(), nil)
 	}
 	if err := kit.Try(func() { runEstablishedXRD(c) }); err != nil {
 		c.Violate("panic:established-xrd", "established-xrd", err.Error(), nil)
